@@ -4,6 +4,7 @@ import (
 	"fmt"
 	"go/constant"
 	"go/token"
+	"strings"
 
 	"golang.org/x/tools/go/ssa"
 
@@ -712,11 +713,11 @@ func C20(c *Ctx) {
 	c.Rule(r1, "latch.Manager.Acquire sorts the deduplicated stripe indices (sort.Ints) before the loop that locks them and locks nothing else; the indices are hash(key) %% len(stripes); stripes are locked nowhere else in the module")
 	fn := c.Fn("percolator/latch", "Manager.Acquire")
 	if fn != nil {
-		srt := need(c, r1, fn, false, "sort.Ints", Named("sort.Ints"), 1)
+		srt := need(c, r1, fn, false, "sort.Ints|slices.Sort", sortIntsCall, 1)
 		locks := need(c, r1, fn, false, "stripe.Lock", Named("(*sync.Mutex).Lock"), 1)
 		for i, l := range locks {
 			ok, n := MustPrecede(fn, l.(ssa.Instruction), instrs(srt))
-			c.Decide(ok, r1, key(fn, fmt.Sprintf("Lock[%d]<-sort.Ints", i+1)), l.Pos(), n, "stripes are locked in ascending index order", "a stripe can be locked before the indices were sorted (lock-order inversion ⇒ deadlock)")
+			c.Decide(ok, r1, key(fn, fmt.Sprintf("Lock[%d]<-sort", i+1)), l.Pos(), n, "stripes are locked in ascending index order", "a stripe can be locked before the indices were sorted (lock-order inversion ⇒ deadlock)")
 			// the locked element is stripes[idx] with idx ranging over the sorted slice
 			ia, ok2 := l.Common().Args[0].(*ssa.IndexAddr)
 			good := false
@@ -727,22 +728,54 @@ func C20(c *Ctx) {
 			c.Decide(blockInLoop(l.Block()), r1, key(fn, fmt.Sprintf("Lock[%d]#in-loop", i+1)), l.Pos(), 1, "one loop locks all stripes", "stripe locking is not a single loop over the indices")
 		}
 		c.Decide(len(locks) == 1, r1, key(fn, "single-lock-site"), fn.Pos(), len(locks)+1, "single lock site", fmt.Sprintf("%d lock sites in Acquire", len(locks)))
-		// dedup: append to indices only after an equality scan
-		eq := false
+		// dedup: append to indices only after an equality scan (open-coded or slices.Contains/Index)
+		eq := len(Calls(fn, false, func(cc *ssa.CallCommon) bool {
+			o := CalleeObj(cc)
+			return o != nil && o.Pkg() != nil && o.Pkg().Path() == "slices" && (o.Name() == "Contains" || o.Name() == "Index")
+		})) > 0
 		AllInstrs(fn, false, func(in ssa.Instruction) {
 			if bo, ok := in.(*ssa.BinOp); ok && bo.Op == token.EQL && bo.X.Type().String() == "int" && bo.Y.Type().String() == "int" {
 				eq = true
 			}
 		})
 		c.Decide(eq, r1, key(fn, "dedup-scan"), fn.Pos(), 1, "duplicate stripe indices are removed (no self-deadlock)", "the duplicate-index scan is gone: two keys hashing to one stripe would self-deadlock")
-		// modulo len(stripes)
+		// modulo len(stripes): in Acquire or in a latch-package helper it calls directly
 		mod := false
-		AllInstrs(fn, false, func(in ssa.Instruction) {
-			if bo, ok := in.(*ssa.BinOp); ok && bo.Op == token.REM {
-				mod = true
+		hasRem := func(f *ssa.Function) {
+			AllInstrs(f, false, func(in ssa.Instruction) {
+				if bo, ok := in.(*ssa.BinOp); ok && bo.Op == token.REM {
+					mod = true
+				}
+			})
+		}
+		hasRem(fn)
+		for _, cl := range Calls(fn, false, func(cc *ssa.CallCommon) bool { return true }) {
+			if sf := StaticFn(cl.Common()); sf != nil && sf.Blocks != nil && FuncPkgPath(sf) == Module+"/percolator/latch" {
+				hasRem(sf)
 			}
-		})
+		}
 		c.Decide(mod, r1, key(fn, "idx=hash%len(stripes)"), fn.Pos(), 1, "index = hash mod stripe count", "stripe index is not reduced modulo the stripe count")
+		// every key of the request is visited: the loop over the keys parameter has no early exit
+		const r1b = "K1.every-key-latched"
+		c.Rule(r1b, "the loop of Acquire over its keys parameter is left only when the keys are exhausted (no break/return inside it), so every non-empty key contributes its stripe")
+		var keysParam ssa.Value
+		if len(fn.Params) >= 2 {
+			keysParam = fn.Params[1]
+		}
+		hs := RangeLoopHeaders(fn, func(s ssa.Value) bool { return s == keysParam })
+		c.Decide(len(hs) == 1, r1b, key(fn, "range-over:keys"), fn.Pos(), 1, "one loop over keys", fmt.Sprintf("%d range loops over the keys parameter", len(hs)))
+		for _, h := range hs {
+			ex := LoopEarlyExits(h)
+			where := fn.Pos()
+			if len(ex) > 0 {
+				for _, in := range ex[0][0].Instrs {
+					if in.Pos().IsValid() {
+						where = in.Pos()
+					}
+				}
+			}
+			c.Decide(len(ex) == 0, r1b, key(fn, "range-over:keys#no-early-exit"), where, len(NaturalLoop(h)), "the key loop runs to exhaustion", fmt.Sprintf("the key loop can be left early (%d exit edge(s)): later keys get no latch", len(ex)))
+		}
 	}
 	// no other function locks a stripe
 	n := 0
@@ -800,6 +833,19 @@ func C20(c *Ctx) {
 		})
 		c.Decide(len(acq) == 1 && rel == 1, r3, key(f, "Acquire+defer-Release"), f.Pos(), 2, "paired", fmt.Sprintf("%d Acquire / %d deferred Release in %s", len(acq), rel, name))
 	}
+}
+
+// sortIntsCall matches an ascending sort of an []int: sort.Ints or slices.Sort.
+func sortIntsCall(cc *ssa.CallCommon) bool {
+	o := CalleeObj(cc)
+	if o == nil || o.Pkg() == nil {
+		return false
+	}
+	switch o.Pkg().Path() + "." + o.Name() {
+	case "sort.Ints", "slices.Sort":
+		return len(cc.Args) == 1 && strings.HasPrefix(cc.Args[0].Type().String(), "[]int")
+	}
+	return false
 }
 
 // rangesOverValue: idx is an element of slice value s (range loop load).
